@@ -19,7 +19,9 @@ Options: the cases of the families "rlink" (a relocatable carrier with one S + A
 behind a link) and "chain" carry relocate_dwarf_sections in {True, False}; the driver passes it to get_dwarf_info next to
 follow_links.  With False the expected view is the stored (unrelocated) one - the specification's view of THAT unit and the
 dump of the plain, link-free object opened with the same option.  An unstripped file with a link names a file with another
-payload: its own data must be what is loaded.
+payload: its own data must be what is loaded.  Link targets that are present but not decodable (the debug file / the
+supplementary file written under a bad plan, or not an ELF file): when the machine reaches the target the load must end
+with the target's own error (outcome error:<kind>), when it does not reach it the target is never read.
 Metamorphic part: the same container transforms are applied harness-side to corpus files (section
 contents rewritten generically through the record layouts the specification exports; zlib levels
 0/1/6/9; SHF_COMPRESSED, .zdebug renaming, per-section mixtures of plain / SHF_COMPRESSED / .zdebug, stripping + .gnu_debuglink with right/wrong CRC,
@@ -76,10 +78,11 @@ CORPUS_THOROUGH = CORPUS_QUICK + [
     (UT + '/compressed_64.o', None), (UT + '/compressed_32.o', None), (RE + '/exe_compressed64.elf', None)]
 
 ERR_CLASSES = {'crc': ('ELFError',), 'size': ('ELFError',), 'type': ('ELFError',), 'nofile': ('ELFError',), 'short': ('ELFError',),
+               'notelf': ('ELFError',),
                'magic': ('ELFError', 'AssertionError'), 'zsize': ('ELFError', 'AssertionError'), 'zshort': ('ELFError', 'AssertionError')}
 # A reader may decompress lazily: then the rejection surfaces while the content is read - but as the data path's own error,
 # not as a parse error over accepted garbage.  A checksum cannot be checked late.
-LATE_CLASSES = {'crc': (), 'nofile': (), 'size': ('ELFCompressionError',), 'type': ('ELFCompressionError',), 'short': ('ELFCompressionError',),
+LATE_CLASSES = {'crc': (), 'nofile': (), 'notelf': (), 'size': ('ELFCompressionError',), 'type': ('ELFCompressionError',), 'short': ('ELFCompressionError',),
                 'magic': ('ELFCompressionError', 'AssertionError'), 'zsize': ('ELFCompressionError', 'AssertionError'),
                 'zshort': ('ELFCompressionError', 'AssertionError')}
 
@@ -405,9 +408,10 @@ def run_spec_cases(run, res, only_tag=None):
         if only_tag is not None and tag != only_tag and not case['isref']:
             continue
         brief = {'cfg': {k: case[k] for k in ('fam', 'cls', 'le', 'ver', 'fmt', 'plan', 'dl', 'home', 'sup', 'supplan', 'loader', 'follow',
-                                              'rel', 'reloc')},
+                                              'rel', 'reloc', 'tgt')},
                  'expect': case['outcome'], 'main_b64': core.b64(main), 'files_b64': {k.decode(): core.b64(v) for k, v in table.items()}}
         nontrivial = case['plan'] not in ('plain', 'none') or case['dl'] != 'none' or case['sup'] != 'none' or case['rel'] != 'none'
+        suploaded = case['suploaded']
         run.count(_key([case['img'], case['loader'], case['follow'], case['reloc']]), nontrivial=nontrivial,
                   sample={'cfg': brief['cfg'], 'outcome': case['outcome'], 'suploaded': case['suploaded'], 'main_size': len(main),
                           'files': {k.decode(): len(v) for k, v in table.items()}} if nontrivial and run.evaluations % 211 == 5 else None)
@@ -435,8 +439,13 @@ def run_spec_cases(run, res, only_tag=None):
         outcome = case['outcome']
         accept = [outcome] + list(case['alt'])
         if outcome.startswith('error:') and not ('exc' in o or 'late_exc' in o):
-            bad('rejected', outcome, 'loaded without error')
-            continue
+            soft = [a for a in case['alt'] if not a.startswith('error:')]
+            if not soft:
+                bad('rejected', outcome, 'loaded without error')
+                continue
+            # the property leaves this outcome open (a link target that is no object file): then the view must be
+            # that of the opened file without the target's data
+            outcome, suploaded = soft[0], False
         if 'exc' in o or 'late_exc' in o:
             kinds = [a.split(':', 1)[1] for a in accept if a.startswith('error:')]
             if not kinds:
@@ -472,8 +481,8 @@ def run_spec_cases(run, res, only_tag=None):
                         bad('timeout', 'an answer', str(ex))
                     except Exception as ex:
                         bad('view.exception', 'no exception', _exc(ex))
-            if bool(d['sup']) != case['suploaded']:
-                bad('sup_loaded', case['suploaded'], d['sup'])
+            if bool(d['sup']) != suploaded:
+                bad('sup_loaded', suploaded, d['sup'])
             if d['lines'] and isinstance(d['lines'], list) and d['lines'][0] and len(d['lines'][0][3]) < 4:
                 bad('ref.lines', 'a line program', _short(d['lines']))
             if case['eh'] and not (isinstance(d['ehcfi'], list) and len(d['ehcfi']) == 3):
@@ -482,8 +491,8 @@ def run_spec_cases(run, res, only_tag=None):
         ref = refs.get(rk)
         if ref is None:
             raise core.MachineryError('no plain reference for %r' % (case['refkey'],))
-        if bool(d['sup']) != case['suploaded']:
-            bad('sup_loaded', case['suploaded'], d['sup'])
+        if bool(d['sup']) != suploaded:
+            bad('sup_loaded', suploaded, d['sup'])
             continue
         df = first_diff(ref, d)
         if df:
@@ -512,8 +521,8 @@ def run_spec_cases(run, res, only_tag=None):
 
 
 def _tag(case):
-    return '%s:%s/plan=%s%s' % (case['fam'], case['sup'] if case['sup'] != 'none' else case['dl'] if case['dl'] != 'none' else 'nolink',
-                                case['plantag'], '' if case['reloc'] else '/norelocate')
+    return '%s:%s/plan=%s%s%s' % (case['fam'], case['sup'] if case['sup'] != 'none' else case['dl'] if case['dl'] != 'none' else 'nolink',
+                                  case['plantag'], case.get('tgttag', ''), '' if case['reloc'] else '/norelocate')
 
 
 def ask(run, tag, brief, main, table, q, ref, supref):
@@ -957,7 +966,8 @@ def check(run):
                 'non-uniform assignment of plain/SHF_COMPRESSED/.zdebug to the four debug sections, .debug_sup against the rest) x class/byte order x DWARF '
                 'version/format x .eh_frame, link families (stripped+.gnu_debuglink right/wrong CRC, unstripped with link, .gnu_debugaltlink, '
                 '.debug_sup with is_supplementary 0/1, stripped->debug->supplementary chains, relocatable carrier direct / behind a link) x encodings '
-                'of every file x loader x follow_links (x relocate_dwarf_sections in the chain and relocatable families); '
+                'of every file x loader x follow_links (x relocate_dwarf_sections in the chain and relocatable families), link targets '
+                'written under the 7 bad plans or not an ELF file; '
                 '(a2) every maximal sequence of repeated questions (supplementary file name / load it / walk the view again) to the loaded object of the link '
                 'configurations, answers computed by the machine; '
                 '(b) corpus file x harness-side transform (gABI / .zdebug at zlib levels, per-section mixtures, decompression, split + link, supplementary pairs'
@@ -965,6 +975,7 @@ def check(run):
     run.assumptions += ['Crc32 and deflate levels other than stored blocks are computed by Python binascii/zlib (trusted)',
                         'error classes: CRC, declared size, unknown compression type -> ELFError family; .zdebug framing -> AssertionError or ELFError',
                         'an unstripped file with a wrong-CRC link may load its own data or reject the link',
+                        'a link target that is not an ELF file: ELFError, or the view of the opened file without the target (the property does not say)',
                         '.eh_frame tables are not compared when the debug data come from a separate file of the corpus/objcopy '
                         '(--only-keep-debug empties it)',
                         'full dump = units, type units, DIEs (offset, tag, code, children flag, size, attributes with name/form/value/raw/offset), '
